@@ -314,6 +314,11 @@ func (p *proxyConn) tunnel(name string, res *http.Response, crw io.ReadWriteClos
 
 	ctx := res.Request.Context()
 
+	// The read deadline of the request that opened the tunnel must not apply to the tunneled traffic.
+	if deadlineErr := p.conn.SetReadDeadline(time.Time{}); deadlineErr != nil {
+		log.Error(ctx, "can't clear read deadline", "error", deadlineErr)
+	}
+
 	log.Debug(ctx, "switched protocols, proxying traffic", "name", name)
 	bicopy(ctx,
 		copier{"upstream " + name, crw, p.conn},
